@@ -42,10 +42,32 @@ int64_t cstl_now(void);  /* steady_clock::now(): the ghost/virtual clock        
 
 /* time_point<ns> + duration<ms>: the common type is ns; the conversion multiplies by 10^6.
  * Signed overflow is UB in the real code; it is a checked obligation here ("TTL representable"). */
+/* duration_cast<nanoseconds>(milliseconds): multiply by 10^6.
+ * native build: exact.
+ * CBMC build: ABSTRACTED.  A symbolic 64-bit multiplication (and its overflow check) makes every SAT query
+ * that touches a deadline intractable (measured: > 15 min instead of 90 s).  No property depends on the
+ * factor, only on "deadline = clock reading + converted TTL", so the conversion of the ONE duration value
+ * G_MS that a call converts is an unknown G_NS constrained by what any strictly monotone odd map gives:
+ * sign and zero preserved, magnitude not decreased.  Converting a different value than G_MS is a model
+ * bound (reported as undecided, never as a pass).  The exact factor is exercised by the co-simulation. */
+#ifdef CSTL_CBMC
+extern cstl_ms G_MS;
+extern int64_t G_NS;
+static inline int64_t cstl_ms_to_ns(cstl_ms d)
+{
+    CSTL_ASSERT(d == G_MS, "model bound: the call converts exactly one duration value (G_MS) to nanoseconds");
+    CSTL_ASSUME((G_MS > 0) == (G_NS > 0) && (G_MS < 0) == (G_NS < 0));
+    CSTL_ASSUME(G_MS >= 0 ? G_NS >= G_MS : G_NS <= G_MS);
+    CSTL_ASSUME(!(G_MS <= INT64_MAX / 1000000 && G_MS >= INT64_MIN / 1000000) || (G_NS <= (INT64_MAX / 1000000) * 1000000 && G_NS >= (INT64_MIN / 1000000) * 1000000));
+    return G_NS;
+}
+#else
+static inline int64_t cstl_ms_to_ns(cstl_ms d) { return d * 1000000; }
+#endif
 static inline cstl_tp cstl_tp_add_ms(cstl_tp t, cstl_ms d)
 {
     CSTL_ASSERT(d <= INT64_MAX / 1000000 && d >= INT64_MIN / 1000000, "std.chrono: ms->ns conversion overflows [C08]");
-    int64_t dn = d * 1000000;
+    int64_t dn = cstl_ms_to_ns(d);
     CSTL_ASSERT(!((dn > 0 && t > INT64_MAX - dn) || (dn < 0 && t < INT64_MIN - dn)), "std.chrono: time_point + duration overflows [C08]");
     return t + dn;
 }
